@@ -116,8 +116,8 @@ ROUND4 = {
         technique="Lean 4 proof: size-generic correctness of the exported graph terms (one term, every concrete shape) + per-axis slice theorem; graph-level tie by a translator + one-build-many-sizes correspondence",
         note=TG_NOTE),
     "C08": dict(
-        text="Round 4 (Props/C08Graph.lean, C08Tensor.lean, Lemmas/SlicesNd.lean): getitemGraph_eval — the term getitem is modelled to emit (one Slice over four constant vectors, scalar Gathers in reverse axis order, one Unsqueeze) evaluates to the operator-level model for every normalised index, shape and element value; getitem_slices_nd — for EVERY rank, an index of one slice per axis inside the standard's bounds is accepted and returns NumPy's elements in NumPy's shape and order (the N-d composition of slice_axis_agree, proved through per-axis (first, count, step) triples); exported_slices_graph_correct — hence the exported graph itself evaluated on any tensor is NumPy's x[s_0, ..., s_{r-1}]; getitem_rank1_slice / getitem_rank1_int / exported_int_graph_correct_rank1 for rank-1 tensors. The check compares the exported graph of every case (static, symbolic and unknown dims, all dtypes, both fields of nullable arrays) with the model's term.",
-        technique="Lean 4 proof: N-d slice theorem by composition of the per-axis clamp lemma, evaluation of the exported graph term to the model + graph-level tie by a translator + exhaustive one-axis correspondence",
+        text="Round 4 (Props/C08Graph.lean, C08Tensor.lean, Lemmas/SlicesNd.lean): getitemGraph_eval — the term getitem is modelled to emit (one Slice over four constant vectors, scalar Gathers in reverse axis order, one Unsqueeze) evaluates to the operator-level model for every normalised index, shape and element value; getitem_slices_nd — for EVERY rank, an index of one slice per axis inside the standard's bounds is accepted and returns NumPy's elements in NumPy's shape and order (the N-d composition of slice_axis_agree, proved through per-axis (first, count, step) triples); exported_slices_graph_correct — hence the exported graph itself evaluated on any tensor is NumPy's x[s_0, ..., s_{r-1}]; getitem_rank1_slice / getitem_rank1_int / exported_int_graph_correct_rank1 for rank-1 tensors. Props/C08Nd.lean and C08Full.lean (lemmas Lemmas/GatherStage.lean, GetitemNd.lean, GetitemNew.lean): getitem_ints_slices_nd, getitem_basic_noEllipsis and getitem_basic_nd — THE FULL BASIC INDEX ON EVERY RANK: for an index of in-range integers (negative too), slices inside the standard's bounds, None entries and one ellipsis, the model of what ndonnx emits (index_normalise, ellipsis expansion, one Slice, scalar Gathers in reverse axis order, one Unsqueeze) accepts it and returns exactly NumPy's elements in NumPy's order and shape, for every rank, shape and element type (gathers_spec: the Gather stage as a plan over the axes; getitemCore_noNew / getitemCore_withNew: axis-by-axis source positions; basic_eq_modelN: NumPy's left-to-right reading; ellipsis_expansion: both sides expand an ellipsis to the same list); exported_getitem_graph_correct / exported_basic_graph_correct carry it to the exported graph term. The check compares the exported graph of every case (static, symbolic and unknown dims, all dtypes, both fields of nullable arrays) with the model's term.",
+        technique="Lean 4 proof: full basic-index theorem for every rank (integers, slices, None, ellipsis) by composition of the per-axis clamp lemma with Slice/Gather/Unsqueeze stage lemmas, evaluation of the exported graph term to the model + graph-level tie by a translator + exhaustive one-axis correspondence",
         note=TG_NOTE + " Mixed int/slice/None indices of rank >= 2 are proved at the graph-to-model level (getitemGraph_eval) and tied to NumPy by correspondence, not by a theorem."),
     "C10": dict(
         text="Graph level (Props/C10Graph.lean): reduceCore_shape — every exported ReduceSum/Prod/Min/Max node as sum/prod/min/max/all/any emit it has NumPy's keepdims shape for every rank, shape (extents 0 included) and valid axis argument; any_graph_correct / all_graph_correct — the exported graph of any/all (x != 0 -> int8 -> int64 -> ReduceMax/Min -> int8 -> bool) returns at every result position whether some / every element of the reduced slice is truthy, including slices with no element (False / True through the int8 round trip of INT64_MIN / INT64_MAX; any_without_int8_is_wrong is the proved witness that the round trip is necessary). The check compares the graph exported for every sampled (function, integer or boolean dtype, axis form, keepdims, dtype=) with the model's term.",
